@@ -5,6 +5,9 @@ package main
 import (
 	"errors"
 	"fmt"
+	"io"
+	"os"
+	"syscall"
 	"strconv"
 	"strings"
 	"time"
@@ -15,6 +18,32 @@ import (
 
 var errInjected = errors.New("injected write failure")
 
+// tempErr looks like a net.Error that announces itself as temporary and as a timeout.
+type tempErr struct{}
+
+func (tempErr) Error() string   { return "temporary failure" }
+func (tempErr) Temporary() bool { return true }
+func (tempErr) Timeout() bool   { return true }
+
+// errValues: the error a failing Write returns.  The property says that EVERY failing Write is
+// reported, whatever the error value is: "retry on EINTR/EAGAIN", "ignore timeouts", "EOF means
+// done" and errors.Is / type-assertion special cases are all wrong.  The value is chosen from the
+// case (index of the failing call and n), so every position meets every value over the sweep.
+var errValues = []error{
+	errInjected,
+	syscall.EINTR,
+	syscall.EAGAIN,
+	io.ErrShortWrite,
+	io.EOF,
+	fmt.Errorf("write: %w", syscall.EINTR),
+	tempErr{},
+	os.ErrDeadlineExceeded,
+	io.ErrClosedPipe,
+	&os.PathError{Op: "write", Path: "/dev/full", Err: syscall.ENOSPC},
+	syscall.EPIPE,
+	io.ErrUnexpectedEOF,
+}
+
 // fwriter fails at call index idx (transient: only that call; permanent: from there on).
 type fwriter struct {
 	calls     int
@@ -22,6 +51,7 @@ type fwriter struct {
 	short     bool
 	full      bool // the failing call accepts all bytes and still returns an error
 	permanent bool
+	errv      error
 	buf       []byte
 }
 
@@ -29,15 +59,19 @@ func (w *fwriter) Write(p []byte) (int, error) {
 	k := w.calls
 	w.calls++
 	if w.idx >= 0 && (k == w.idx || (w.permanent && k > w.idx)) {
+		e := w.errv
+		if e == nil {
+			e = errInjected
+		}
 		if w.full {
 			w.buf = append(w.buf, p...)
-			return len(p), errInjected
+			return len(p), e
 		}
 		if w.short && len(p) > 0 {
 			w.buf = append(w.buf, p[:len(p)/2]...)
-			return len(p) / 2, errInjected
+			return len(p) / 2, e
 		}
-		return 0, errInjected
+		return 0, e
 	}
 	w.buf = append(w.buf, p...)
 	return len(p), nil
@@ -109,9 +143,12 @@ func exec(line string) hx.Result {
 	calls = nil
 	domainOK = true
 	w := &fwriter{idx: idx, short: kind == "s" || kind == "S", full: kind == "c" || kind == "C", permanent: kind == "E" || kind == "S" || kind == "C"}
+	if idx >= 0 {
+		w.errv = errValues[(idx*7+n*5+len(kind)+int(kind[0]))%len(errValues)]
+	}
 	err := tsp.LIB(w, n, weights)
 	if idx >= 0 && idx < total && err == nil {
-		res.Viol = append(res.Viol, hx.Fail("", "LIB returned nil although Write call %d of %d failed (%s, kind %s)", idx, total, failspec, kind))
+		res.Viol = append(res.Viol, hx.Fail("", "LIB returned nil although Write call %d of %d failed (%s, kind %s, error value %v)", idx, total, failspec, kind, w.errv))
 	}
 	if idx >= 0 && !strings.HasPrefix(string(dry.buf), string(w.buf)) {
 		res.Viol = append(res.Viol, hx.Fail("", "bytes accepted before the failure are not a prefix of the complete output"))
@@ -264,6 +301,22 @@ func gen(g *hx.Gen) {
 			for j := 0; j < limit; j += stride {
 				emitF(n, "f"+strconv.Itoa(j), kind)
 			}
+		}
+	}
+	// sizes across 256 (thorough: 512) (row length, digit count of DIMENSION, any
+	// "large problem" path): the complete output and a few failure positions each
+	// (the extracted model works on lists: about n^3 steps per case, so 300 is the quick limit)
+	bigNs := []int{255, 256, 257, 258, 300}
+	if g.Thorough() {
+		bigNs = append(bigNs, 400, 511, 512, 513)
+	}
+	for _, n := range bigNs {
+		emitF(n, "none", "e")
+		for _, h := range []string{"h0", "h1", "h2", "eof"} {
+			emitF(n, h, kinds[g.Rng.Intn(len(kinds))])
+		}
+		for k := 0; k < g.Pick(4, 12); k++ {
+			emitF(n, "f"+strconv.Itoa(g.Rng.Intn(1<<22)), kinds[g.Rng.Intn(len(kinds))])
 		}
 	}
 	for i := 0; i < g.Pick(400, 6000); i++ {
